@@ -432,6 +432,7 @@ def memory_phase(ctx, rng, nhist, nops):
     for (schema, w, ops, real), out in zip(batch, outs):
         steps = out.get('steps')
         if steps is None:
+            if 'unknown property' in str(out.get('driver_error')): raise RuntimeError('the shared driver executable was replaced while running: %r' % out)
             ctx.divergence('driver error', {'schema': schema, 'ops': ops}, model=out); continue
         k = -1
         for i, (err, snap, tag) in enumerate(real):
@@ -545,6 +546,7 @@ def reload_phase(ctx, rng, w, ops, real, pks):
             out = ctx.driver('C12', [{'op': 'run', 'schema': w.model_schema, 'ops': [model_op(o) for o in ops] + [model_op(o) for o, _, _ in more]}])[0]
             steps = out.get('steps')
             if steps is None:
+                if 'unknown property' in str(out.get('driver_error')): raise RuntimeError('the shared driver executable was replaced while running: %r' % out)
                 ctx.divergence('driver error', {'schema': w.schema, 'ops': ops}, model=out)
             else:
                 for j, (op, err, snap) in enumerate(more):
@@ -620,37 +622,44 @@ def full_read(w, only_live=False):
 def S(ent, coll=False, req=False, casc=None):
     return {'ent': ent, 'coll': coll, 'req': req, 'opt_casc': casc}
 
-W_CASCADE_REASSIGN = {   # Props/C12: C12_step_full_false_ok
+W_CASCADE_REASSIGN = {   # Props/C12: C12_step_full_false_cascade
     'schema': {'nent': 2, 'rels': [{'kind': 'o2o', 'sym': False, 'a': S(0, casc=True), 'b': S(1)}]},
     'ops': [{'k': 'create', 'e': 0, 'vals': []}, {'k': 'create', 'e': 1, 'vals': []}, {'k': 'create', 'e': 1, 'vals': []},
             {'k': 'setRef', 'o': 0, 'a': [0, False], 'v': 1}, {'k': 'setRef', 'o': 0, 'a': [0, False], 'v': 2}]}
-W_REFUSED_DELETE = {     # Props/C12: C12_step_full_false_err
+W_SELF_LINK = {          # Props/C12: C12_step_full_false_selflink
+    'schema': {'nent': 1, 'rels': [{'kind': 'sym1', 'sym': True, 'a': S(0)}]},
+    'ops': [{'k': 'create', 'e': 0, 'vals': []}, {'k': 'create', 'e': 0, 'vals': []},
+            {'k': 'setRef', 'o': 0, 'a': [0, False], 'v': 0}, {'k': 'setRef', 'o': 0, 'a': [0, False], 'v': 1}]}
+R_REFUSED_DELETE = {     # repaired in /repo (fix: a refused delete emptied the object's many-to-many collections): regression input
     'schema': {'nent': 3, 'rels': [{'kind': 'm2m', 'sym': False, 'a': S(0, coll=True), 'b': S(1, coll=True)},
                                    {'kind': 'm2o', 'sym': False, 'a': S(0, coll=True, casc=False), 'b': S(2, req=True)}]},
     'ops': [{'k': 'create', 'e': 0, 'vals': []}, {'k': 'create', 'e': 1, 'vals': [[[0, True], {'coll': [0]}]]},
             {'k': 'create', 'e': 2, 'vals': [[[1, True], {'ref': 0}]]}, {'k': 'delete', 'o': 0}]}
-WITNESSES = [('cascade-reassign', W_CASCADE_REASSIGN), ('refused-delete', W_REFUSED_DELETE)]
+WITNESSES = [('cascade-reassign', W_CASCADE_REASSIGN, 'one-to-one-cascade-reassign'), ('self-link', W_SELF_LINK, 'symmetric-one-to-one-self-link')]
+REGRESSIONS = [('refused-delete', R_REFUSED_DELETE)]
 
 
 def witnesses(ctx):
-    reqs = []
-    for name, wi in WITNESSES:
+    """the witnesses of the `_full_false` theorems are replayed on the real code on every run; repaired defects stay as regression inputs"""
+    for name, wi, key in WITNESSES:
         v = first_violation(wi['schema'], wi['ops'])
         ctx.case({'witness': name}, nontrivial=True, kind='witness')
         if v is None:
-            ctx.note('witness %s: the real code no longer shows the disagreement (the guarded theorem could be strengthened)' % name)
+            ctx.note('witness %s: the real code no longer shows the disagreement (the guard of C12_step could be dropped for this class)' % name)
             ctx.count('witness-not-reproduced:' + name)
         else:
             ctx.count('witness-reproduced:' + name)
             report_violation(ctx, wi['schema'], wi['ops'], v[0], v[1], v[2])
-        reqs.append(wi)
+    for name, wi in REGRESSIONS:
+        v = first_violation(wi['schema'], wi['ops'])
+        ctx.case({'regression': name}, nontrivial=True, kind='regression')
+        if v is not None: report_violation(ctx, wi['schema'], wi['ops'], v[0], v[1], v[2])
     if ctx.driver.ok:
-        for (name, wi) in WITNESSES:
+        for name, wi in [(n, x) for n, x, _ in WITNESSES] + REGRESSIONS:
             w = World(wi['schema'])
-            out = ctx.driver('C12', [{'op': 'run', 'schema': w.model_schema, 'ops': wi['ops']}])[0]
+            out = ctx.driver('C12', [{'op': 'run', 'schema': w.model_schema, 'ops': [model_op(o) for o in wi['ops']]}])[0]
             w.db.disconnect()
-            inv = [s['inv'] for s in out.get('steps', [])]
-            ctx.extra.setdefault('witness_model_inv', {})[name] = inv
+            ctx.extra.setdefault('witness_model_inv_after_each_call', {})[name] = [st['inv'] for st in out.get('steps', [])]
 
 
 def run(ctx):
